@@ -342,6 +342,17 @@ def main():
         add("R19.h", "lock-never-released", "bin/newpolicy.sh", "no unlock / close / re-open of descriptor %s after the initial flock" % fd, not bad,
             "the lock is given up while the run continues; a second newpolicy.sh can work on the database at the same time: %s" % "; ".join(bad))
 
+    # ---- R19.i: a reverted bad commit is followed by a fresh compile in the same run
+    rule("R19.i", "After a bad commit was reverted the run compiles again: in main, `try_revert` is the condition of an `if` inside the retry loop whose then-branch is an unconditional `continue` (back to prepare_next); `uptodate` is consulted only before the loop, never inside it (inside the loop it would look at the clone that has just pushed the revert and call it up to date). Otherwise the newest compiling revision is not made current by this run, and later runs stop at `uptodate` as well.")
+    tr = [c for c in mainc if c.words[:1] == ["try_revert"]]
+    cont = [c for c in mainc if c.words[:1] == ["continue"] and c.ctx and c.ctx[-1] == "then:try_revert" and "loop" in c.ctx and c.andor in (None, "")]
+    ok_tr = len(tr) == 1 and tr[0].ctx[-1:] == ["cond"] and "loop" in tr[0].ctx and len(cont) == 1
+    add("R19.i", "retry-after-revert", "bin/newpolicy.sh", "`if try_revert; then continue` inside the retry loop of main: %s" % [(c.text, c.ctx) for c in tr + cont], ok_tr,
+        "after a successful revert the loop does not unconditionally start over with prepare_next: the reverted state is never compiled")
+    up_in_loop = [c for c in mainc if c.words[:1] == ["uptodate"] and "loop" in c.ctx]
+    add("R19.i", "uptodate-only-before-loop", "bin/newpolicy.sh", "`uptodate` is not called inside the retry loop", not up_in_loop,
+        "uptodate inside the loop compares with the clone that just pushed the revert: %s" % [c.text for c in up_in_loop])
+
     # ---- R19.b / R19.e
     writers = [c for c in cmds if writes_path(c, cur)]
     add("R19.b", "floor|writers-of-current", "bin/newpolicy.sh", "%d commands write `current`" % len(writers), len(writers) >= 2, "expected at least rm and ln")
